@@ -485,9 +485,19 @@ def _setvalues(task, rec):
                         b.change_init_values(dict(dct))
                     cur = {nm: float(v) for nm, v in b.get_beta_values().items()}
                     ll = float(b.calculate_init_likelihood())
+                    sim_ll = float(sum(b.simulate(b.get_beta_values())['log_like'])) if tier == 'thorough' or (m1 + (m2 or 0)) % 3 == 0 else None
+                    alone = float(sum(expr.get_value_c(database=db, prepare_ids=True)))
                 except Exception as e:
                     rec.case(key, ('raised', type(e).__name__), outcome='raised')
                     bad(f'change_init_values-raised-{type(e).__name__}', f'{seq}: {str(e)[:200]}', m1=m1, m2=m2)
+                    continue
+                # whichever way a named fixed parameter is read, the model object and the formula it was built on hold ONE
+                # value for every parameter: the likelihood of the model, its simulation, and the formula evaluated on
+                # its own (which reads the values stored in the formula) agree
+                if not close(ll, alone) or (sim_ll is not None and not close(sim_ll, alone)):
+                    bad('model-and-its-formula-hold-different-values-after-change_init_values',
+                        f'change_init_values{seq}: the model reports log likelihood {ll!r} (simulated: {sim_ll!r}) while the formula '
+                        f'it was built on, evaluated on its own, gives {alone!r}', m1=m1, m2=m2)
                     continue
                 want_free = {o: ORIG[o] for o in free_orig}
                 fixed_options = {o: {ORIG[o]} for o in fixed_orig}
